@@ -50,8 +50,14 @@ pub fn p_capsule_with_frame() {
     kani::cover!(got.is_none() && len > 4);
 }
 
+static mut UTF8_VERDICT: Option<bool> = None;
+
 fn utf8_verdict_stub(v: &[u8]) -> Result<&str, core::str::Utf8Error> {
-    if kani::any() {
+    let verdict: bool = kani::any();
+    unsafe {
+        UTF8_VERDICT = Some(verdict);
+    }
+    if verdict {
         // SAFETY (verification stub): the caller only copies the bytes into a String
         Ok(unsafe { core::str::from_utf8_unchecked(v) })
     } else {
@@ -62,7 +68,7 @@ fn utf8_verdict_stub(v: &[u8]) -> Result<&str, core::str::Utf8Error> {
 }
 
 /// CLOSE_WEBTRANSPORT_SESSION, length boundary, for payload lengths 0..=1030 (UTF-8 validation
-/// replaced by an arbitrary verdict): `Ok` implies 4 <= len <= 4 + 1024 and a valid-UTF-8 verdict;
+/// replaced by an arbitrary recorded verdict): `Ok` IFF 4 <= len <= 4 + 1024 and the verdict is valid;
 /// the error code is the big-endian first four bytes for all 2^32 codes; the reason has exactly
 /// len - 4 bytes; every error is H3_DATAGRAM_ERROR (protocol failure, never an application close).
 #[kani::proof]
@@ -73,7 +79,20 @@ pub fn p_close_wt_session_length_and_code() {
     let len: usize = kani::any();
     kani::assume(len <= 1030);
     let capsule = Capsule { kind: CapsuleKind::CloseWebTransportSession, payload: &b[..len] };
-    match CloseWebTransportSession::with_capsule(&capsule) {
+    let got = CloseWebTransportSession::with_capsule(&capsule);
+    let in_range = len >= 4 && len <= 4 + spec::CLOSE_REASON_MAX;
+    // accepted EXACTLY when the length is in range and the reason is valid UTF-8 (a reason of up
+    // to 1024 bytes is never refused for its length); UTF-8 is consulted only for in-range lengths
+    match unsafe { UTF8_VERDICT } {
+        Some(valid) => {
+            assert!(in_range);
+            assert!(got.is_ok() == valid);
+        }
+        None => {
+            assert!(!in_range && got.is_err());
+        }
+    }
+    match got {
         Ok(c) => {
             assert!(len >= 4 && len <= 4 + spec::CLOSE_REASON_MAX);
             let code = ((b[0] as u32) << 24) | ((b[1] as u32) << 16) | ((b[2] as u32) << 8) | b[3] as u32;
